@@ -95,6 +95,7 @@ return value is the error.
 func RecordArtifacts(paths []string, hashAlgorithms []string, gitignorePatterns []string, lStripPaths []string, lineNormalization bool, followSymlinkDirs bool) (evalArtifacts map[string]HashObj, err error) {
 	// Make sure to initialize a fresh hashset for every RecordArtifacts call
 	visitedSymlinks = NewSet()
+	verifEmit("record_reset", paths)
 	evalArtifactsUnnormalized, err := recordArtifacts(paths, hashAlgorithms, gitignorePatterns, lStripPaths, lineNormalization, followSymlinkDirs)
 	if err != nil {
 		return nil, err
@@ -160,6 +161,7 @@ func recordArtifacts(paths []string, hashAlgorithms []string, gitignorePatterns 
 				// iterations. infoMode()&os.ModeSymlink uses the file
 				// type bitmask to check for a symlink.
 				if info.Mode()&os.ModeSymlink == os.ModeSymlink {
+					verifEmit("record_symlink", path)
 					// return with error if we detect a symlink cycle
 					if ok := visitedSymlinks.Has(path); ok {
 						// this error will get passed through
@@ -297,6 +299,7 @@ func RunCommand(cmdArgs []string, runDir string) (map[string]interface{}, error)
 	if err := cmd.Start(); err != nil {
 		return nil, err
 	}
+	verifEmit("cmd_started", cmd.Process.Pid)
 
 	// TODO: duplicate stdout, stderr
 	stdout, _ := io.ReadAll(stdoutPipe)
